@@ -55,6 +55,7 @@ func GenConfig(rng *vbase.Rng, profile string) Config {
 		return cfg
 	}
 	cfg.FetchLoss = []int{0, 0, 15, 40}[rng.Intn(4)]
+	cfg.RogueKey = cfg.Scheme == crypto.NameBLS12 && rng.Bool()
 	// place at most f faulty replicas
 	perm := rng.Perm(cfg.N)
 	nf := rng.Range(0, f)
